@@ -70,12 +70,22 @@ Proof.
   exists x. split; [apply lookup_some; exact E|reflexivity].
 Qed.
 
+Lemma filter_nonempty_eq (l : list bytes) :
+  filter (fun e => match e with [] => false | _ => true end) l = filter (fun v => negb (null v)) l.
+Proof. apply filter_ext. intros [|x a]; reflexivity. Qed.
+
+(* canonical or alternative spelling: the items are what TrimExplode yields; an all-blank list is
+   "no list" for a key whose absence is the default *)
 Lemma rv_elems k d v rs : v <> [] -> read_value (VElems k d) v = WF true rs ->
-  forallb canonical_elem (split_on 59 v) = true /\ rs = [RList k (split_on 59 v)].
+  rs = match trim_explode 59 v with [] => if d then [] else [RList k []] | l => [RList k l] end.
 Proof.
   intros Hne H. unfold read_value in H. destruct (has_lf v); [discriminate|].
-  destruct v; [congruence|]. destruct (forallb canonical_elem (split_on 59 (z :: v))) eqn:E; [|discriminate].
-  injection H as <-. auto.
+  destruct v; [congruence|]. unfold trim_explode.
+  destruct (forallb canonical_elem (split_on 59 (z :: v))) eqn:E.
+  - injection H as <-. rewrite (trim_explode_canonical _ E).
+    pose proof (split_on_nonempty 59 (z :: v)). destruct (split_on 59 (z :: v)); [congruence|reflexivity].
+  - injection H as <-. rewrite filter_nonempty_eq.
+    destruct (filter (fun v0 : list Z => negb (null v0)) (map trim_space (split_on 59 (z :: v)))); reflexivity.
 Qed.
 
 Lemma rv_caps v rs : read_value VCaps v = WF true rs -> rs = [RCaps (read_caps v)].
@@ -148,10 +158,9 @@ Proof.
   destruct Hk as [E|Hk]. (* _defaultCalibrationProfile *)
   { injection E as <- <-. rewrite (rv_text _ _ _ _ Hne Hv). reflexivity. }
   destruct Hk as [E|Hk]. (* _serverModeLockToIP *)
-  { injection E as <- <-. destruct (rv_elems _ _ _ _ Hne Hv) as [Hc ->].
+  { injection E as <- <-. rewrite (rv_elems _ _ _ _ Hne Hv).
     dg (Some (m_pinfo (pi_with_locked (trim_explode 59 v)))).
-    unfold trim_explode. rewrite (trim_explode_canonical _ Hc).
-    pose proof (split_on_nonempty 59 v). destruct (split_on 59 v); [congruence|reflexivity]. }
+    destruct (trim_explode 59 v); reflexivity. }
   destruct Hk as [E|Hk]. (* _serverModeMaxClients *)
   { injection E as <- <-. u32_case Hv.
     dg (Some (m_pinfo (pi_with_maxclients (wrap32 (intval v))))).
@@ -166,9 +175,9 @@ Proof.
     dg (Some (m_dim (wrap32 (intval v)))).
     fin_u32 Ha Hr. reflexivity. }
   destruct Hk as [E|Hk]. (* _connections *)
-  { injection E as <- <-. destruct (rv_elems _ _ _ _ Hne Hv) as [Hc ->].
+  { injection E as <- <-. rewrite (rv_elems _ _ _ _ Hne Hv).
     dg (Some (m_conn (trim_explode 59 v))).
-    unfold trim_explode. rewrite (trim_explode_canonical _ Hc). reflexivity. }
+    destruct (trim_explode 59 v); reflexivity. }
   destruct Hk as [E|Hk]. (* _bootsCount *)
   { injection E as <- <-. u32_case Hv.
     dg (Some (m_rts (wrap32 (intval v)) 0 0 0)).
